@@ -205,7 +205,7 @@ def _wrap_method(cls, name, after):
     def wrapper(self, *args, **kwargs):
         result = original(self, *args, **kwargs)
         rec = _rec()
-        if rec is not None:
+        if rec is not None and not getattr(rec, "no_log", False):
             after(rec, self, result)
         return result
 
